@@ -11,7 +11,7 @@ BACKENDS = ["memory", "redis", "hybrid-redis", "hybrid-shared-mem", "hybrid-mem"
 PTR = {"memory": 1, "hybrid-mem": 1, "hybrid-shared-mem": 1, "redis": 0, "hybrid-redis": 0}     # Get hands back the stored Go value
 INCL = {"memory": 1, "hybrid-mem": 1, "hybrid-shared-mem": 1, "redis": 0, "hybrid-redis": 0}    # readable at exactly the deadline (never observed)
 
-CONNECT, AUTHOK, AUTHFAIL, KICK, HEARTBEAT, CLOSE, TICK, STALE, SREG, SUNREG, SREFRESH = 0, 1, 2, 3, 4, 5, 6, 7, 10, 11, 12
+CONNECT, AUTHOK, AUTHFAIL, KICK, HEARTBEAT, CLOSE, TICK, STALE, SEND, SENDRACE, SREG, SUNREG, SREFRESH = 0, 1, 2, 3, 4, 5, 6, 7, 8, 9, 10, 11, 12
 SIDE_CONDITIONS = 9   # lemmas of Proofs/SideC08.v
 
 
@@ -92,7 +92,12 @@ def session_history(rng, nodes, clients, length):
                 if rng.random() < 0.4 and sh in CONTROL_SHAPES:
                     ops.append([KICK, n, x, c])
                     kick(n, x, c)
-                ops.append([AUTHOK, n, c, x, sh])
+                if (n, x) not in regmap and rng.random() < 0.3:
+                    # the login completes inside a forwarding path's lookup for x on this very node (command / HTTP; before
+                    # the index read or between the two reads)
+                    ops.append([SENDRACE, n, c, x, sh, rng.randrange(2), rng.randrange(2)])
+                else:
+                    ops.append([AUTHOK, n, c, x, sh])
                 if sh in CONTROL_SHAPES:
                     login(n, c, x)
                 else:
@@ -144,6 +149,9 @@ def session_history(rng, nodes, clients, length):
                 ops.append([CLOSE, n, c])
                 gone(n, c)
                 open_conns.remove((n, c))
+        elif k < 0.76:
+            # a forwarding path asks for a client that never logged in (id 99): a pure read
+            ops.append([SEND, rng.randrange(1, nodes + 1), 99, rng.randrange(2)])
         else:
             t = tick(rng, budget)
             if t:
@@ -224,6 +232,13 @@ def scripted(rng):
     for reap in ([CLOSE, 1, 1], [STALE, 1, 1]):
         out.append(("state-late-heartbeat", [[CONNECT, 1, 1], [AUTHOK, 1, 1, x, 0], [HEARTBEAT, 1, 1], [CONNECT, 2, 2], [AUTHOK, 2, 2, x, 0],
                                               [HEARTBEAT, 1, 1], [HEARTBEAT, 2, 2], [HEARTBEAT, 1, 1], reap, [HEARTBEAT, 2, 2], [CLOSE, 2, 2]]))
+    # a command / HTTP request for X is being forwarded on node 1 exactly while X's handshake on node 1 completes (inside the
+    # forwarder's lookup: before the index read, or between its two reads while X is still indexed on node 2); X then heartbeats
+    for via in (0, 1):
+        out.append(("forwarder-races-login", [[CONNECT, 1, 1], [SENDRACE, 1, 1, x, 0, via, 0], [HEARTBEAT, 1, 1], [TICK, 2], [HEARTBEAT, 1, 1],
+                                               [TICK, 2], [SEND, 2, 99, via], [CLOSE, 1, 1]]))
+        out.append(("forwarder-races-move", [[CONNECT, 2, 1], [AUTHOK, 2, 1, x, 0], [CONNECT, 1, 2], [SENDRACE, 1, 2, x, 1, via, 1], [HEARTBEAT, 1, 2],
+                                              [TICK, 2], [CLOSE, 2, 1], [HEARTBEAT, 1, 2], [TICK, 2], [CLOSE, 1, 2]]))
     # three nodes, ping-pong, cleanups in reverse order
     out.append(("three-nodes", [[CONNECT, 1, 1], [AUTHOK, 1, 1, x], [CONNECT, 2, 2], [AUTHOK, 2, 2, x], [CONNECT, 3, 3],
                                 [AUTHOK, 3, 3, x], [CLOSE, 2, 2], [HEARTBEAT, 3, 3], [TICK, 2], [CLOSE, 1, 1],
